@@ -69,6 +69,7 @@ def apply(frame, mask):
     return frame[:3] + body.to_bytes(len(frame) - 3, "big")
 
 
+@core.guard
 def judge(case):
     from pyrtcm import RTCMReader  # pylint: disable=import-outside-toplevel
     from pyrtcm.exceptions import RTCMParseError  # pylint: disable=import-outside-toplevel
@@ -102,8 +103,30 @@ def judge(case):
         logging.disable(logging.CRITICAL)
     elif logcfg == "root-critical":
         lg.setLevel(logging.CRITICAL)
+    closer = None
+    kind = case.get("stream", "bytesio")
+    data = b"".join(sent)
+    if kind == "bytesio":
+        stream = io.BytesIO(data)
+    elif kind == "buffered-raw":  # non-seekable: has tell(), which refuses to answer
+        from mc.doubles import DribbleRaw  # pylint: disable=import-outside-toplevel
+
+        stream = io.BufferedReader(DribbleRaw(data, 5), buffer_size=16)
+    elif kind == "plain":  # an object with read()/readline() and nothing else
+        from mc.doubles import FaultStream  # pylint: disable=import-outside-toplevel
+
+        stream = FaultStream(data, None, faults=False)
+    elif kind == "bytearray":
+        from mc.doubles import TypedStream  # pylint: disable=import-outside-toplevel
+
+        stream = TypedStream(data, None, bytearray, faults=False)
+    else:
+        from mc.doubles import SegSocket  # pylint: disable=import-outside-toplevel
+
+        stream = SegSocket(data, [7] * 50)
+        closer = stream.close
     try:
-        rdr = RTCMReader(io.BytesIO(b"".join(sent)), quitonerror=q,
+        rdr = RTCMReader(stream, quitonerror=q,
                          errorhandler=(herrs if use_handler == "falsy" else herrs.append)
                          if use_handler else None)
         events = []
@@ -121,13 +144,15 @@ def judge(case):
         else:
             out.bad("nontermination", "iteration does not stop")
     finally:
+        if closer:
+            closer()
         lg.removeHandler(counter)
         lg.setLevel(old_level)
         logging.disable(logging.NOTSET)
         for l, lv in zip(libs, old_libs):
             l.setLevel(lv)
     name = f"k={len(frames)} damaged={sorted(damage)} q={q} handler={use_handler}" + (
-        f" logging={logcfg}" if logcfg else "")
+        f" logging={logcfg}" if logcfg else "") + (f" stream={kind}" if kind != "bytesio" else "")
     got = [e[1] for e in events if e[0] == "frame"]
     if q in (0, 1):
         if any(e[0] in ("parse-error", "other") for e in events):
@@ -216,6 +241,18 @@ def cases(tier):
                     for q, h in ((0, True), (1, True), (2, True), (1, "falsy"), (1, False)):
                         out.append({"frames": frames, "damage": {i: mask}, "q": q, "handler": h,
                                     "logcfg": logcfg})
+    # kinds of stream object x every single-bit damage x modes
+    for k in (2, 3):
+        frames = base_frames(k)
+        for i in range(k):
+            nb = (len(frames[i]) - 3) * 8
+            for kind, mask in patterns(nb):
+                if kind != "bit":
+                    continue
+                for skind in ("buffered-raw", "plain", "bytearray", "socket"):
+                    for q, h in modes[:4]:
+                        out.append({"frames": frames, "damage": {i: mask}, "q": q, "handler": h,
+                                    "stream": skind})
     # rebroadcast (byte-identical) frames: a damaged copy of a frame the same reader has already
     # delivered must still be rejected (static messages such as 1005/1033 repeat verbatim)
     a, b = base_frames(2)
